@@ -317,6 +317,53 @@ def fine_cases(draw):
     return {"uid": M.enc(uid), "salt": draw(st.sampled_from([None, "s1"])), "steps": steps, "jitter": draw(st.integers(0, 999))}
 
 
+def fixed_families():
+    """the same chains of shares in every spelling the generator knows (plain, multiplied, zero-padded, in 1e-9 units, as
+    decimals), so that no spelling depends on the luck of a seed"""
+    chains = [[[10, 90], [20, 80], [50, 50], [100, 0]], [[4, 5, 5, 4], [5, 5, 5, 4], [5, 5, 5, 1]], [[1, 9], [2, 8], [5, 5]], [[0, 1, 3], [1, 1, 2], [2, 1, 1], [3, 1, 0]]]
+    spell = {"plain": lambda w: str(w), "x7": lambda w: str(7 * w), "padded": lambda w: "%04d" % w, "nano": lambda w: "0.%09d" % w,
+             "tenths": lambda w: "%d.%d" % (w // 10, w % 10), "micro": lambda w: "0.%06d" % w, "x1e6": lambda w: str(w * 10 ** 6)}
+    units = [M.enc(u) for u in ["u%d" % i for i in range(40)] + ["", 0, None, 3.5]]
+    for ci, chain in enumerate(chains):
+        for name, f in spell.items():
+            yield {"family": [[f(w) for w in ws] for ws in chain], "units": units, "salt": [None, "s1", ""][ci % 3], "kind": "fixed-" + name}
+        # a different spelling at every step of one chain
+        names = sorted(spell)
+        yield {"family": [[spell[names[(vi + gi) % len(names)]](1) if False else spell[names[vi % len(names)]](w) for gi, w in enumerate(ws)]
+                          for vi, ws in enumerate(chain)], "units": units, "salt": "mixed", "kind": "fixed-mixed"}
+
+
+SPELL = {"plain": lambda w: str(w), "x7": lambda w: str(7 * w), "padded": lambda w: "%04d" % w, "nano": lambda w: "0.%09d" % w,
+         "tenths": lambda w: "%d.%d" % (w // 10, w % 10), "micro": lambda w: "0.%06d" % w, "x1e6": lambda w: str(w * 10 ** 6), "float": lambda w: "%d.0" % w}
+
+
+def spelling_cases():
+    for ci, ws in enumerate([[1, 2], [2, 1], [1, 9], [4, 5, 5, 4], [1, 1, 2], [3, 0, 1], [1, 2, 3, 4, 5, 6, 7, 8], [9, 1], [5, 4], [1, 1], [7, 3, 0, 5]]):
+        yield {"spellings": True, "ws": ws, "salt": [None, "s1", ""][ci % 3], "n_units": 120}
+
+
+def judge_spellings(case):
+    """the same shares in every spelling (plain, multiplied, zero-padded, in units of 1e-9 / 1e-6 / 0.1, as x.0) put every unit
+    into the same group: a position does not depend on the magnitude or the notation of the weights"""
+    ws = case["ws"]
+    units = ["u%d" % i for i in range(case["n_units"])] + ["", 0, None]
+    rows = {}
+    for name, f in SPELL.items():
+        text = M.render(M.program("sp", M.ret([(M.lit_str("g%d" % gi), f(w)) for gi, w in enumerate(ws)]), salt=case["salt"], splitters=["uid"]))
+        res = sut.compile_text(text)
+        if res[0] != "ok":
+            return {"viol": ["does not compile: %s %s | %s" % (res[1], res[2], text)], "tags": ["spellings"], "key": case}
+        rows[name] = [sut.call(res[1], {"uid": u}) for u in units]
+    viol = []
+    for name, row in rows.items():
+        for u, a, b in zip(units, rows["plain"], row):
+            if a != b:
+                viol.append("unit %r: weights %r select %r, the same shares written %r select %r" % (u, [SPELL["plain"](w) for w in ws], a[1:], [SPELL[name](w) for w in ws], b[1:]))
+                break
+    return {"viol": viol[:3], "nontrivial": len(set(map(str, rows["plain"]))) > 1, "tags": ["spellings"], "key": [ws, case["salt"]],
+            "sample": {"shares": ws, "spellings": sorted(SPELL)}}
+
+
 def restart_cases():
     """a ramp rolled out by restarts: every weight vector of the chain is served by ANOTHER interpreter process (its own hash
     seed), several splitter fields with mixed-case names"""
@@ -394,12 +441,20 @@ def judge_case(record):
     c = record["case"]
     if c.get("restart"):
         return judge_restart(c)["viol"]
+    if c.get("spellings"):
+        return judge_spellings(c)["viol"]
     return (judge_fine(c) if "steps" in c else judge(c))["viol"]
 
 
 def run(ctx, rec):
     if ctx.shard == 0:
         runner.direct_run(ctx, rec, "ramp-rolled-out-by-restarts", restart_cases(), judge_restart)
+        if rec.violations:
+            return
+        runner.direct_run(ctx, rec, "fixed-families-in-every-spelling", fixed_families(), judge)
+        if rec.violations:
+            return
+        runner.direct_run(ctx, rec, "same-shares-other-spelling", spelling_cases(), judge_spellings)
         if rec.violations:
             return
     runner.hyp_run(ctx, rec, "families", families(), judge, ctx.n(400, 1500))
